@@ -166,9 +166,16 @@ def _pl(p, i):
             node = (node[0], node[1] + (('index', int(m.group(1))),))
         else:
             m = re.match(r'(-?)(\d+) of (\d+)$', inner)
-            if not m:
+            m2 = re.match(r'(\d*):(?:-(\d+))?$', inner)
+            m3 = re.match(r'(\d+)\.\.(\d+)$', inner)
+            if m:
+                node = (node[0], node[1] + (('constindex', int(m.group(2)), bool(m.group(1))),))
+            elif m2:      # slice pattern `[a, rest @ .., z]`: Subslice { from, to, from_end: true }
+                node = (node[0], node[1] + (('subslice', int(m2.group(1) or 0), int(m2.group(2) or 0), True),))
+            elif m3:
+                node = (node[0], node[1] + (('subslice', int(m3.group(1)), int(m3.group(2)), False),))
+            else:
                 raise Unsupported('index proj: ' + p)
-            node = (node[0], node[1] + (('constindex', int(m.group(2)), bool(m.group(1))),))
         i = j + 1
     return node, i
 
@@ -419,10 +426,26 @@ def compile_fn(f):
     """parse raw statement strings into tuples (lazily, once)"""
     if f.blocks:
         return
+    whole = None
     for bb, raw in f.raw.items():
         stmts = []
         for s in raw[:-1]:
             st = parse_stmt(s)
             if st is not None:
+                if st[0] == 'assign' and st[2][0] == 'closure':
+                    # rustc prints a closure aggregate by zipping the *distinct captured variables* with the captured
+                    # places, so with disjoint field captures (`self.a` and `self.b`) the last operands are missing
+                    # from the text.  They are the temporaries assigned earlier in this block that nothing else in
+                    # the function mentions; recorded here, used by the interpreter only when the closure body
+                    # needs more upvars than were printed (and only if the count then matches exactly).
+                    if whole is None:
+                        whole = '\n'.join('\n'.join(r) for r in f.raw.values())
+                    extra = []
+                    for prev in stmts:
+                        if prev[0] == 'assign' and not prev[1][1]:
+                            n = prev[1][0]
+                            if len(re.findall(r'\b_%d\b' % n, whole)) == 1:
+                                extra.append(('move', (n, ())))
+                    st = st + (extra,)
                 stmts.append(st)
         f.blocks[bb] = (stmts, parse_term(raw[-1]), raw)
